@@ -249,26 +249,21 @@ func (w *World) rulesPool(p *Pkg, sw *ssaWorld, fns []*ssa.Function, add func(ok
 		}
 		for _, g := range gets {
 			nGet++
-			// exactly one Put, deferred, of the very same value
-			okPut := len(puts) == 1
-			if okPut {
-				_, isDefer := puts[0].(*ssa.Defer)
-				args := puts[0].Common().Args
-				okPut = isDefer && len(args) == 2 && args[1] == ssa.Value(g) && puts[0].Block() == g.Block()
-			}
-			add(okPut, "R14.pool", fname+".put", g.Pos(), map[bool]string{true: "the value obtained from Get is handed back by a deferred Put of the same value, registered in the same block (runs on every exit, after every use)", false: "the pooled value is not returned by exactly one deferred Put of the value obtained from Get (early/duplicate Put lets two calls share the slice; re-boxing allocates)"}[okPut])
-			add(okPut, "R17.put", fname+".put", g.Pos(), map[bool]string{true: "Put receives the interface value obtained from Get (no re-boxing allocation)", false: "Put does not receive the interface value obtained from Get"}[okPut])
 			// taint
 			tainted := map[ssa.Value]string{g: "iface"}
 			var splitRes ssa.Value
 			bad := []string{}
 			work := []ssa.Value{g}
 			note := func(pos token.Pos, s string) { bad = append(bad, p.posAt(pos)+": "+s) }
+			var uses []ssa.Instruction
 			for len(work) > 0 {
 				v := work[len(work)-1]
 				work = work[:len(work)-1]
 				kind := tainted[v]
 				for _, r := range *v.Referrers() {
+					if cc, ok := r.(ssa.CallInstruction); !ok || !isPoolMethod(cc.Common(), "Put") {
+						uses = append(uses, r)
+					}
 					switch x := r.(type) {
 					case *ssa.DebugRef:
 					case *ssa.TypeAssert:
@@ -315,6 +310,9 @@ func (w *World) rulesPool(p *Pkg, sw *ssaWorld, fns []*ssa.Function, add func(ok
 						}
 					case *ssa.Call:
 						c := x.Common()
+						if isPoolMethod(c, "Put") && kind == "iface" {
+							continue
+						}
 						if callee := c.StaticCallee(); callee != nil && callee.Pkg == f.Pkg {
 							// package-local callee receiving the slice: split
 							continue
@@ -349,6 +347,103 @@ func (w *World) rulesPool(p *Pkg, sw *ssaWorld, fns []*ssa.Function, add func(ok
 					}
 				}
 			}
+			// ---- Put discipline
+			var deferred, direct []ssa.CallInstruction
+			sameVal := len(puts) > 0
+			for _, pc := range puts {
+				args := pc.Common().Args
+				if len(args) != 2 || args[1] != ssa.Value(g) {
+					sameVal = false
+				}
+				if _, ok := pc.(*ssa.Defer); ok {
+					deferred = append(deferred, pc)
+				} else {
+					direct = append(direct, pc)
+				}
+			}
+			idxIn := func(ins ssa.Instruction) int {
+				for i, x := range ins.Block().Instrs {
+					if x == ins {
+						return i
+					}
+				}
+				return -1
+			}
+			reach := func(from *ssa.BasicBlock) map[*ssa.BasicBlock]bool {
+				seen := map[*ssa.BasicBlock]bool{}
+				var dfs func(b *ssa.BasicBlock)
+				dfs = func(b *ssa.BasicBlock) {
+					for _, s := range b.Succs {
+						if !seen[s] {
+							seen[s] = true
+							dfs(s)
+						}
+					}
+				}
+				dfs(from)
+				return seen
+			}
+			// safety (C14): nothing uses the pooled value after it was put back; no double Put
+			var unsafePut []string
+			if len(deferred) > 1 || (len(deferred) == 1 && len(direct) > 0) {
+				unsafePut = append(unsafePut, "the value can be put back twice (two later Gets would share one slice)")
+			}
+			for _, pc := range direct {
+				after := reach(pc.Block())
+				for _, u := range uses {
+					if (u.Block() == pc.Block() && idxIn(u) > idxIn(pc)) || after[u.Block()] {
+						unsafePut = append(unsafePut, p.posAt(u.Pos())+": the pooled slice is still used after Put at "+p.posAt(pc.Pos())+" (another call may already own it)")
+						break
+					}
+				}
+				for _, q := range direct {
+					if q != pc && ((q.Block() == pc.Block() && idxIn(q) > idxIn(pc)) || after[q.Block()]) {
+						unsafePut = append(unsafePut, "two Puts can execute on one path")
+					}
+				}
+			}
+			if len(puts) == 0 {
+				// never returned: no sharing, only garbage (C17's concern)
+			}
+			add(len(unsafePut) == 0, "R14.pool", fname+".put", g.Pos(), map[bool]string{true: fmt.Sprintf("%d Put site(s): the pooled value is not used after being put back and is put back at most once per path", len(puts)), false: "pool typestate violated: " + strings.Join(unsafePut, "; ")}[len(unsafePut) == 0])
+			// budget (C17): every exit passes a Put of the very interface value obtained from Get
+			leak := ""
+			if !sameVal {
+				leak = "Put does not receive the interface value obtained from Get (re-boxing the slice allocates on every call)"
+			} else if len(deferred) == 1 && deferred[0].Block() == g.Block() {
+				// runs on every exit
+			} else {
+				putBlocks := map[*ssa.BasicBlock]bool{}
+				for _, pc := range direct {
+					putBlocks[pc.Block()] = true
+				}
+				for _, pc := range deferred {
+					putBlocks[pc.Block()] = true
+				}
+				if !putBlocks[g.Block()] {
+					seen := map[*ssa.BasicBlock]bool{g.Block(): true}
+					var dfs func(b *ssa.BasicBlock) bool
+					dfs = func(b *ssa.BasicBlock) bool {
+						if len(b.Succs) == 0 {
+							return true // exit reached without a Put
+						}
+						for _, s := range b.Succs {
+							if putBlocks[s] || seen[s] {
+								continue
+							}
+							seen[s] = true
+							if dfs(s) {
+								return true
+							}
+						}
+						return false
+					}
+					if dfs(g.Block()) {
+						leak = "an exit path of " + fname + " does not put the slice back: the next call finds the pool empty and allocates a new slice (and its interface box)"
+					}
+				}
+			}
+			add(leak == "", "R17.put", fname+".put", g.Pos(), map[bool]string{true: "every exit hands the very interface value obtained from Get back to the pool (no re-boxing, no leak)", false: leak}[leak == ""])
 			add(len(bad) == 0 && splitRes != nil, "R14.pool", fname+".use", g.Pos(), map[bool]string{true: "the pooled slice is only resliced to the live prefix [:split+1], indexed for reading, and passed to split; it does not escape", false: "pool typestate violated: " + strings.Join(bad, "; ") + map[bool]string{true: "", false: " (no reslice to the prefix written by split)"}[splitRes != nil]}[len(bad) == 0 && splitRes != nil])
 		}
 	}
@@ -384,16 +479,24 @@ func (p *Pkg) checkSplitWrites() (bool, string) {
 		return false, "split function not found: undecided"
 	}
 	sp := paramObjs(info, sfd)
-	var ret *ast.ReturnStmt
-	for _, s := range sfd.Body.List {
-		if r, ok := s.(*ast.ReturnStmt); ok {
-			ret = r
+	// curr: the index variable of the stores into the destination slice
+	var curr types.Object
+	consistent := true
+	ast.Inspect(sfd.Body, func(n ast.Node) bool {
+		if as, ok := n.(*ast.AssignStmt); ok && len(as.Lhs) == 1 {
+			if ix, ok := as.Lhs[0].(*ast.IndexExpr); ok && identObj(info, ix.X) == sp[0] {
+				o := identObj(info, ix.Index)
+				if o == nil || (curr != nil && curr != o) {
+					consistent = false
+				}
+				curr = o
+			}
 		}
+		return true
+	})
+	if curr == nil || !consistent {
+		return false, "split does not store through a single index variable: undecided"
 	}
-	if ret == nil || len(ret.Results) != 1 {
-		return false, "split does not return its last index: undecided"
-	}
-	curr := identObj(info, ret.Results[0])
 	isStore := func(s ast.Stmt) bool {
 		as, ok := s.(*ast.AssignStmt)
 		if !ok || len(as.Lhs) != 1 {
@@ -402,6 +505,10 @@ func (p *Pkg) checkSplitWrites() (bool, string) {
 		ix, ok := as.Lhs[0].(*ast.IndexExpr)
 		return ok && identObj(info, ix.X) == sp[0] && identObj(info, ix.Index) == curr
 	}
+	// invariant: every index < curr was written in this call. It holds when curr
+	// starts at 0 and every increment of curr is preceded (same statement list,
+	// no intervening change of curr) by a store to dst[curr]. `return curr`
+	// needs one more store before it; `return curr - k` (k >= 1) needs nothing.
 	okAll := true
 	n := 0
 	var visit func(list []ast.Stmt)
@@ -412,30 +519,57 @@ func (p *Pkg) checkSplitWrites() (bool, string) {
 			case *ast.IncDecStmt:
 				if identObj(info, st.X) == curr {
 					n++
-					if !stored {
+					if !stored || st.Tok != token.INC {
 						okAll = false
 					}
 					stored = false
 				}
 			case *ast.ReturnStmt:
-				if len(st.Results) == 1 && identObj(info, st.Results[0]) == curr {
-					n++
+				if len(st.Results) != 1 {
+					okAll = false
+					continue
+				}
+				n++
+				r := st.Results[0]
+				if identObj(info, r) == curr {
 					if !stored {
 						okAll = false
 					}
+				} else if be, ok := r.(*ast.BinaryExpr); ok && be.Op == token.SUB && identObj(info, be.X) == curr {
+					if u, ok := constUint(info, be.Y); !ok || u < 1 {
+						okAll = false
+					}
+				} else {
+					okAll = false
 				}
 			case *ast.AssignStmt:
 				if isStore(s) {
 					stored = true
 				} else {
-					for _, l := range st.Lhs {
-						if identObj(info, l) == curr && st.Tok != token.DEFINE {
-							stored = false
+					for i, l := range st.Lhs {
+						if identObj(info, l) == curr {
+							if st.Tok == token.DEFINE && i < len(st.Rhs) {
+								if u, ok := constUint(info, st.Rhs[i]); ok && u == 0 {
+									continue
+								}
+							}
+							if st.Tok == token.ADD_ASSIGN && len(st.Rhs) == 1 {
+								if u, ok := constUint(info, st.Rhs[0]); ok && u == 1 {
+									n++
+									if !stored {
+										okAll = false
+									}
+									stored = false
+									continue
+								}
+							}
 							okAll = false
 						}
 					}
 				}
 			case *ast.ForStmt:
+				visit(st.Body.List)
+			case *ast.RangeStmt:
 				visit(st.Body.List)
 			case *ast.IfStmt:
 				visit(st.Body.List)
@@ -466,13 +600,6 @@ func (w *World) rulesBuf(p *Pkg, add func(ok bool, rule, inst string, pos token.
 	if em.Fn == nil || em.BufObj == nil {
 		add(false, "R14.buf", "Vector", token.NoPos, "Vector has no local buffer made in the call: undecided")
 		return
-	}
-	for _, pr := range em.Problems {
-		pos := token.NoPos
-		if pr.n != nil {
-			pos = pr.n.Pos()
-		}
-		add(false, "R14.buf", "Vector.stmt", pos, "statement outside the serializer language (the buffer may escape or be shared): "+pr.msg)
 	}
 	last := em.Fn.Body.List[len(em.Fn.Body.List)-1]
 	rs, ok := last.(*ast.ReturnStmt)
@@ -541,6 +668,8 @@ func (w *World) rulesBuf(p *Pkg, add func(ok bool, rule, inst string, pos token.
 			gp, ok := stack[len(stack)-3].(*ast.CallExpr)
 			if !ok || len(gp.Args) == 0 || gp.Args[0] != ast.Expr(x) {
 				badUse = "the address of the buffer is taken outside an emit helper call"
+			} else if callee, _ := identObj(info, gp.Fun).(*types.Func); callee == nil || !p.summariseEmitHelper(callee, 0).ok {
+				badUse = "the address of the buffer is handed to " + types.ExprString(gp.Fun) + ", which is not a verified append-only emit helper"
 			}
 		default:
 			if !withinNode(rs, id) {
@@ -550,7 +679,7 @@ func (w *World) rulesBuf(p *Pkg, add func(ok bool, rule, inst string, pos token.
 		return true
 	})
 	fresh := em.MakeCall != nil
-	ok = okRet && badUse == "" && fresh && len(em.Problems) == 0
+	ok = okRet && badUse == "" && fresh
 	det := fmt.Sprintf("buffer made in the call, %d uses: appended to only through the verified emit helpers, %s", uses, how)
 	if !ok {
 		det = "Vector's buffer is not private to the call: "
